@@ -1,5 +1,313 @@
+//! C09 — counts, degrees, density and the adjacency matrix agree with the edge multiset.
+use super::lifecycle::{self, Arms};
+use super::{Prop, Tier};
 use crate::core::case::*;
-use crate::core::model::Model;
-use crate::core::real::G;
-use crate::runner::Ctx;
-pub fn check_counts(_i: usize, _g: &G, _m: &Model, _case: &Case, _cx: &mut Ctx) {}
+use crate::core::model::{Model, K};
+use crate::core::real::{self, Snap, G};
+use crate::core::rng::Rng;
+use crate::core::rt;
+use crate::gen;
+use crate::oracle::close;
+use crate::runner::{Ctx, EnvResult};
+use graphrs::algorithms::centrality::degree::degree_centrality;
+
+pub struct C09Prop;
+pub static C09: C09Prop = C09Prop;
+const B: u64 = real::OP_BUDGET;
+
+pub fn check_counts(step: usize, g: &G, m: &Model, _case: &Case, cx: &mut Ctx) {
+    // reference: what get_all_nodes / get_all_edges of the real graph show
+    let snap = match Snap::of(g) {
+        Ok(s) => s,
+        Err(p) => {
+            cx.fail("C09.panic", "observe", format!("observe panicked: {}", p.0));
+            return;
+        }
+    };
+    let specs = m.specs;
+    let n = snap.n();
+    let medges = snap.edges.len();
+    let directed = snap.directed;
+    let weighted = medges > 0 && snap.weighted();
+    let kind = format!("{}{}", if directed { "directed" } else { "undirected" }, if specs.multi { "+multi" } else { "" });
+    macro_rules! q {
+        ($label:expr, $e:expr) => {
+            match rt::call($label, B, || $e) {
+                Ok(v) => v,
+                Err(p) => {
+                    cx.fail("C09.panic", &format!("{} panicked", $label), format!("after step {}: {} panicked: {} [{}]", step, $label, p.0, specs.short()));
+                    return;
+                }
+            }
+        };
+    }
+    macro_rules! bad {
+        ($oracle:expr, $sig:expr, $($arg:tt)*) => {{
+            cx.fail($oracle, &$sig, format!("after step {}: {} [{}]", step, format!($($arg)*), specs.short()));
+            return;
+        }};
+    }
+    let has_parallel = {
+        let mut seen = std::collections::BTreeSet::new();
+        snap.edges.iter().any(|e| {
+            let k = if directed || e.0 <= e.1 { (e.0, e.1) } else { (e.1, e.0) };
+            !seen.insert(k)
+        })
+    };
+    let has_loop = snap.edges.iter().any(|e| e.0 == e.1);
+    if has_parallel {
+        cx.count("probe.parallel_edges_present");
+    }
+    if has_loop {
+        cx.count(if directed { "probe.directed_self_loop_present" } else { "probe.undirected_self_loop_present" });
+    }
+    // ---- counts
+    let nn = q!("number_of_nodes", g.number_of_nodes());
+    if nn != n {
+        bad!("C09.number_of_nodes", "number_of_nodes".to_string(), "number_of_nodes() = {} but {} nodes are stored", nn, n);
+    }
+    let ne = q!("number_of_edges", g.number_of_edges());
+    if ne != medges {
+        bad!("C09.number_of_edges", format!("number_of_edges {} parallel={}", kind, has_parallel), "number_of_edges() = {} but {} edges are stored (parallel edges count individually)", ne, medges);
+    }
+    let sz = q!("size(false)", g.size(false));
+    if sz != medges as f64 {
+        bad!("C09.size", "size(false)".to_string(), "size(false) = {} but {} edges are stored", sz, medges);
+    }
+    if weighted {
+        let sw = q!("size(true)", g.size(true));
+        let exp: f64 = snap.edges.iter().map(|e| e.2).sum();
+        if !close(sw, exp) {
+            bad!("C09.size", "size(true)".to_string(), "size(true) = {} but the weights sum to {}", sw, exp);
+        }
+    }
+    // ---- degrees
+    let mut deg = vec![0usize; n];
+    let mut indeg = vec![0usize; n];
+    let mut outdeg = vec![0usize; n];
+    let mut wdeg = vec![0.0f64; n];
+    let mut win = vec![0.0f64; n];
+    let mut wout = vec![0.0f64; n];
+    for &(u, v, w) in &snap.edges {
+        deg[u] += 1;
+        deg[v] += 1; // a self-loop adds two
+        outdeg[u] += 1;
+        indeg[v] += 1;
+        wdeg[u] += w;
+        wdeg[v] += w;
+        wout[u] += w;
+        win[v] += w;
+    }
+    let all_deg = q!("get_degree_for_all_nodes", g.get_degree_for_all_nodes());
+    let all_wdeg = if weighted { Some(q!("get_weighted_degree_for_all_nodes", g.get_weighted_degree_for_all_nodes())) } else { None };
+    let (all_in, all_out) = if directed {
+        (Some(q!("get_in_degree_for_all_nodes", g.get_in_degree_for_all_nodes())), Some(q!("get_out_degree_for_all_nodes", g.get_out_degree_for_all_nodes())))
+    } else {
+        (None, None)
+    };
+    let (all_win, all_wout) = if directed && weighted {
+        (Some(q!("get_weighted_in_degree_for_all_nodes", g.get_weighted_in_degree_for_all_nodes())), Some(q!("get_weighted_out_degree_for_all_nodes", g.get_weighted_out_degree_for_all_nodes())))
+    } else {
+        (None, None)
+    };
+    if all_deg.len() != n {
+        bad!("C09.degree_map", "get_degree_for_all_nodes size".to_string(), "get_degree_for_all_nodes has {} entries for {} nodes", all_deg.len(), n);
+    }
+    let mut sum_deg = 0usize;
+    let mut sum_in = 0usize;
+    let mut sum_out = 0usize;
+    let (mut sum_wdeg, mut sum_win, mut sum_wout) = (0.0, 0.0, 0.0);
+    for v in 0..n {
+        let name = snap.names[v].clone();
+        let loop_here = snap.edges.iter().any(|e| e.0 == v && e.1 == v);
+        let where_ = format!("{}{}", kind, if loop_here { " node with self-loop" } else { "" });
+        let d = q!("get_node_degree", g.get_node_degree(name.clone()));
+        match d {
+            Some(d) => {
+                sum_deg += d;
+                if d != deg[v] {
+                    bad!("C09.degree", format!("get_node_degree {}", where_), "get_node_degree({:?}) = {} but the stored edges give {} (edge ends at the node, a self-loop adds two)", name, d, deg[v]);
+                }
+                if all_deg.get(&name) != Some(&d) {
+                    bad!("C09.degree_map", "get_degree_for_all_nodes".to_string(), "get_degree_for_all_nodes[{:?}] = {:?} but get_node_degree = {}", name, all_deg.get(&name), d);
+                }
+            }
+            None => bad!("C09.degree", "get_node_degree None".to_string(), "get_node_degree({:?}) = None for an existing node", name),
+        }
+        if directed {
+            let i = q!("get_node_in_degree", g.get_node_in_degree(name.clone()));
+            let o = q!("get_node_out_degree", g.get_node_out_degree(name.clone()));
+            match (i, o) {
+                (Some(i), Some(o)) => {
+                    sum_in += i;
+                    sum_out += o;
+                    if i != indeg[v] || o != outdeg[v] {
+                        bad!("C09.in_out_degree", format!("in/out degree {}", where_), "in/out degree of {:?} = {}/{} but the stored edges give {}/{}", name, i, o, indeg[v], outdeg[v]);
+                    }
+                    if d != Some(i + o) {
+                        bad!("C09.handshake", format!("degree != in + out {}", where_), "degree({:?}) = {:?} but in-degree + out-degree = {} + {}", name, d, i, o);
+                    }
+                    let mi = all_in.as_ref().and_then(|r| r.as_ref().ok()).and_then(|m| m.get(&name).copied());
+                    let mo = all_out.as_ref().and_then(|r| r.as_ref().ok()).and_then(|m| m.get(&name).copied());
+                    if mi != Some(i) || mo != Some(o) {
+                        bad!("C09.degree_map", "in/out degree maps".to_string(), "get_in/out_degree_for_all_nodes[{:?}] = {:?}/{:?} but the per-node calls give {}/{}", name, mi, mo, i, o);
+                    }
+                }
+                _ => bad!("C09.in_out_degree", "in/out degree None".to_string(), "in/out degree of existing node {:?} on a directed graph = {:?}/{:?}", name, i, o),
+            }
+        }
+        if weighted {
+            let wd = q!("get_node_weighted_degree", g.get_node_weighted_degree(name.clone()));
+            match wd {
+                Some(wd) => {
+                    sum_wdeg += wd;
+                    if !close(wd, wdeg[v]) {
+                        bad!("C09.weighted_degree", format!("get_node_weighted_degree {}", where_), "get_node_weighted_degree({:?}) = {} but the stored edges give {}", name, wd, wdeg[v]);
+                    }
+                    let mw = all_wdeg.as_ref().and_then(|m| m.get(&name).copied());
+                    if mw.map_or(true, |x| !close(x, wd)) {
+                        bad!("C09.degree_map", "weighted degree map".to_string(), "get_weighted_degree_for_all_nodes[{:?}] = {:?} but the per-node call gives {}", name, mw, wd);
+                    }
+                }
+                None => bad!("C09.weighted_degree", "weighted degree None".to_string(), "get_node_weighted_degree({:?}) = None", name),
+            }
+            if directed {
+                let i = q!("get_node_weighted_in_degree", g.get_node_weighted_in_degree(name.clone()));
+                let o = q!("get_node_weighted_out_degree", g.get_node_weighted_out_degree(name.clone()));
+                match (i, o) {
+                    (Some(i), Some(o)) => {
+                        sum_win += i;
+                        sum_wout += o;
+                        if !close(i, win[v]) || !close(o, wout[v]) {
+                            bad!("C09.weighted_in_out_degree", format!("weighted in/out degree {}", where_), "weighted in/out degree of {:?} = {}/{} but the stored edges give {}/{}", name, i, o, win[v], wout[v]);
+                        }
+                        if wd.map_or(true, |w| !close(w, i + o)) {
+                            bad!("C09.handshake", format!("weighted degree != in + out {}", where_), "weighted degree({:?}) = {:?} but weighted in + out = {} + {}", name, wd, i, o);
+                        }
+                        let mi = all_win.as_ref().and_then(|r| r.as_ref().ok()).and_then(|m| m.get(&name).copied());
+                        let mo = all_wout.as_ref().and_then(|r| r.as_ref().ok()).and_then(|m| m.get(&name).copied());
+                        if mi.map_or(true, |x| !close(x, i)) || mo.map_or(true, |x| !close(x, o)) {
+                            bad!("C09.degree_map", "weighted in/out maps".to_string(), "weighted in/out maps at {:?} = {:?}/{:?} but per-node {}/{}", name, mi, mo, i, o);
+                        }
+                    }
+                    _ => bad!("C09.weighted_in_out_degree", "weighted in/out None".to_string(), "weighted in/out degree of {:?} = {:?}/{:?}", name, i, o),
+                }
+            }
+        }
+    }
+    if sum_deg != 2 * medges {
+        bad!("C09.handshake", format!("sum of degrees {}", kind), "the degrees sum to {} but twice the number of edges is {}", sum_deg, 2 * medges);
+    }
+    if directed && (sum_in != medges || sum_out != medges) {
+        bad!("C09.handshake", format!("sum of in/out degrees {}", kind), "in-degrees sum to {}, out-degrees to {}, but there are {} edges", sum_in, sum_out, medges);
+    }
+    if weighted {
+        let tot: f64 = snap.edges.iter().map(|e| e.2).sum();
+        if !close(sum_wdeg, 2.0 * tot) || (directed && (!close(sum_win, tot) || !close(sum_wout, tot))) {
+            bad!("C09.handshake", format!("weighted sums {}", kind), "weighted degrees sum to {} (in {}, out {}) but the total weight is {}", sum_wdeg, sum_win, sum_wout, tot);
+        }
+    }
+    // ---- degree centrality, density
+    if n >= 2 {
+        let dc = q!("degree_centrality", degree_centrality(g));
+        for v in 0..n {
+            let got = dc.get(&snap.names[v]).copied().unwrap_or(f64::NAN);
+            let exp = deg[v] as f64 / (n as f64 - 1.0);
+            if !close(got, exp) {
+                bad!("C09.degree_centrality", format!("degree_centrality {}", kind), "degree_centrality[{:?}] = {} but degree/(n-1) = {}", snap.names[v], got, exp);
+            }
+        }
+        if !specs.multi {
+            let dens = q!("get_density", g.get_density());
+            let exp = medges as f64 / (n as f64 * (n as f64 - 1.0)) * if directed { 1.0 } else { 2.0 };
+            if !close(dens, exp) {
+                bad!("C09.density", format!("get_density {}", kind), "get_density() = {} but m/(n(n-1)){} = {}", dens, if directed { "" } else { " doubled" }, exp);
+            }
+        }
+    }
+    // ---- adjacency matrix
+    let mat = q!("get_sparse_adjacency_matrix", g.get_sparse_adjacency_matrix().map(|mx| {
+        let mut v: Vec<(usize, usize, f64)> = mx.iter().map(|(x, (i, j))| (i, j, *x)).collect();
+        v.sort_by(|a, b| (a.0, a.1).cmp(&(b.0, b.1)));
+        (mx.rows(), mx.cols(), v)
+    }));
+    if specs.multi {
+        match mat {
+            Err(e) if real::kind(&e.kind) == K::WrongMethod => {}
+            other => bad!("C09.matrix", "matrix on multi-edge graph".to_string(), "get_sparse_adjacency_matrix on a multi-edge graph must be WrongMethod, got {:?}", other.map(|x| x.2.len()).map_err(|e| e.kind)),
+        }
+    } else {
+        match mat {
+            Err(e) => bad!("C09.matrix", "matrix failed".to_string(), "get_sparse_adjacency_matrix failed: {:?}", e.kind),
+            Ok((r, c, entries)) => {
+                if r != n || c != n {
+                    bad!("C09.matrix", "matrix shape".to_string(), "matrix is {}x{} for {} nodes", r, c, n);
+                }
+                let mut exp: Vec<(usize, usize, f64)> = vec![];
+                for &(u, v, w) in &snap.edges {
+                    let w = if w.is_nan() { 1.0 } else { w };
+                    exp.push((u, v, w));
+                    if !directed && u != v {
+                        exp.push((v, u, w));
+                    }
+                }
+                exp.sort_by(|a, b| (a.0, a.1).cmp(&(b.0, b.1)));
+                let same = entries.len() == exp.len() && entries.iter().zip(exp.iter()).all(|(a, b)| a.0 == b.0 && a.1 == b.1 && (a.2 == b.2 || close(a.2, b.2)));
+                if !same {
+                    let pattern_ok = entries.iter().map(|e| (e.0, e.1)).collect::<Vec<_>>() == exp.iter().map(|e| (e.0, e.1)).collect::<Vec<_>>();
+                    let sig = if pattern_ok {
+                        format!("matrix values {} {}", kind, if weighted { "weighted" } else { "unweighted" })
+                    } else {
+                        format!("matrix pattern {}", kind)
+                    };
+                    bad!("C09.matrix", sig, "adjacency matrix entries (row, col, value) = {:?} but the stored edges give {:?} (by node position; 1 for an unweighted edge; symmetric when undirected)", entries, exp);
+                }
+                cx.count("matrix_checks");
+            }
+        }
+    }
+    cx.count("count_checks");
+}
+
+impl Prop for C09Prop {
+    fn id(&self) -> &'static str {
+        "C09"
+    }
+    fn runs(&self, tier: Tier) -> u64 {
+        match tier {
+            Tier::Quick => 120_000,
+            Tier::Thorough => 2_400_000,
+        }
+    }
+    fn gen(&self, seed: u64, idx: u64, _tier: Tier) -> Case {
+        let mut rng = Rng::new(seed, "config");
+        let specs = Specs::from_index(idx as usize % 96);
+        let mut case = Case::new("C09", seed, specs);
+        let regime = *rng.pick(&[gen::WeightRegime::AllNan, gen::WeightRegime::Dyadic, gen::WeightRegime::SmallInt, gen::WeightRegime::Nasty, gen::WeightRegime::Mixed]);
+        let o = gen::HistOpts { specs, max_ops: 24, regime, derived: false, restart: true, names_min: 2, names_max: 6, dup_bias: 35 };
+        let mut wr = Rng::new(seed, "workload");
+        case.ops = gen::gen_history(&mut wr, &o);
+        let k = gen::keyings(seed, 2);
+        case.envs = vec![Env { keying: k[(idx % 2) as usize], pool: 1, sched: 0 }];
+        case
+    }
+    fn run_env(&self, case: &Case, _env: &Env, cx: &mut Ctx) {
+        let arms = Arms { c09: true, ..Default::default() };
+        if let Some((_g, m, _)) = lifecycle::drive(case, cx, &arms) {
+            let loops = m.edges.iter().any(|e| e.u == e.v);
+            let parallel = m.edges.iter().enumerate().any(|(i, e)| m.edges[..i].iter().any(|f| m.joins(f, &e.u, &e.v)));
+            let n: Vec<&String> = m.nodes.iter().map(|n| &n.0).collect();
+            let order_differs = n.windows(2).any(|w| w[0] > w[1]);
+            if !m.edges.is_empty() && (loops || parallel || order_differs) {
+                cx.nt.push(crate::core::rng::mix(case.specs.index() as u64, lifecycle::ops_hash(&case.ops)));
+            }
+        }
+    }
+    fn cross(&self, _case: &Case, _results: &[EnvResult], _cx: &mut Ctx) {}
+    fn rule(&self) -> String {
+        "lifecycle histories (<= 24 ops) over all 96 specs; after EVERY op: number_of_nodes/edges, size(false/true), per-node degree / in / out / weighted variants vs the edge multiset shown by get_all_edges, handshake identities, *_for_all_nodes maps vs per-node calls, degree_centrality, get_density (single-edge, n >= 2), sparse adjacency matrix entries by node position (WrongMethod on multi-edge). distinct_nontrivial = distinct (specs, history) whose final graph has edges and a self-loop, parallel edges or a name order different from insertion order".into()
+    }
+    fn assumptions(&self) -> Vec<String> {
+        vec!["weighted quantities at 1e-9; weighted variants only on graphs whose edges all carry weights".into(), "that in-/out- queries refuse undirected graphs is C02's business, not asserted here".into()]
+    }
+}
